@@ -118,6 +118,41 @@ def remotePut (s : State) (k : Nat) (r : Rec) : State :=
 def remoteDel (s : State) (k : Nat) : State :=
   { a := (Bitmap.release s.a k).1, store := AMap.erase s.store k }
 
+/-- a change another node makes to the shared store -/
+inductive Remote where
+  | put (k : Nat) (r : Rec)
+  | del (k : Nat)
+  deriving Repr, DecidableEq
+
+/-- … as the store sees it -/
+def Remote.onStore (st : Store) : Remote → Store
+  | .put k r => AMap.insert st k r
+  | .del k => AMap.erase st k
+
+/-- … as handleRemoteChange applies it in memory -/
+def Remote.onMem (a : Bitmap.State) : Remote → Bitmap.State
+  | .put k r => applyPut a k r
+  | .del k => (Bitmap.release a k).1
+
+/-- the change reaches the store and this node's watch -/
+def applyRemote (s : State) : Remote → State
+  | .put k r => remotePut s k r
+  | .del k => remoteDel s k
+
+/-- Start, in its two steps (since fix 700037a): the Watch is registered FIRST; then, with remote changes held
+    off by da.mu, loadAllocations replays the result of its Query.  `window` are the changes other nodes make
+    after that Query was answered: they are in the store, not in the snapshot, and their notifications — the
+    watch is registered — are applied in order once the load has finished. -/
+def startGap (s : State) (order : List Nat) (window : List Remote) : State :=
+  { a := window.foldl Remote.onMem (load (Bitmap.init s.a.cfg) (snapshot s.store order)),
+    store := window.foldl Remote.onStore s.store }
+
+/-- Start as it WAS (loadAllocations, then Watch): nobody was watching when the window's changes were
+    announced, so memory never learnt of them -/
+def startGapUnwatched (s : State) (order : List Nat) (window : List Remote) : State :=
+  { a := load (Bitmap.init s.a.cfg) (snapshot s.store order),
+    store := window.foldl Remote.onStore s.store }
+
 inductive Op where
   | alloc (k : Nat) (putFails : Bool)
   | release (k : Nat) (delFails : Bool)
@@ -128,6 +163,8 @@ inductive Op where
   | restart (order : List Nat)
   | remotePut (k : Nat) (r : Rec)
   | remoteDel (k : Nat)
+  /-- crash + restart with other nodes writing to the store while this node's Start is reading it -/
+  | restartGap (order : List Nat) (window : List Remote)
   deriving Repr, DecidableEq
 
 def step (s : State) : Op → State × Obs
@@ -140,6 +177,7 @@ def step (s : State) : Op → State × Obs
   | .restart order => (restart s order, .ok)
   | .remotePut k r => (remotePut s k r, .ok)
   | .remoteDel k => (remoteDel s k, .ok)
+  | .restartGap order w => (startGap s order w, .ok)
 
 def run (s : State) (ops : List Op) : State := ops.foldl (fun st op => (step st op).1) s
 
@@ -268,6 +306,20 @@ def remotePut (s : State) (k : Nat) (r : Rec) : State :=
 def remoteDel (s : State) (k : Nat) : State :=
   { a := (Epoch.release s.a k).1, store := AMap.erase s.store k }
 
+/-- a change another node makes to the shared store, as this node applies it -/
+def applyRemote (s : State) : Session.Remote → State
+  | .put k r => remotePut s k r
+  | .del k => remoteDel s k
+
+/-- Start in lease mode, in its two steps (Watch first, then the load under da.mu; see `Session.startGap`):
+    `window` are the changes that reach the store after the Query of the load step was answered -/
+def startGap (s : State) (order : List Nat) (window : List Session.Remote) : State :=
+  let r := load (Epoch.init s.a.cfg) s.store (snapshot s.store order)
+  { a := window.foldl (fun a ev => match ev with
+        | .put k rec => applyPut a k rec
+        | .del k => (Epoch.release a k).1) r.1,
+    store := window.foldl Session.Remote.onStore r.2 }
+
 inductive Op where
   | alloc (k : Nat) (putFails : Bool)
   | release (k : Nat) (delFails : Bool)
@@ -301,35 +353,65 @@ end Lease
 
   The bitmap allocator plus the store's record per subscriber — the session-mode wrapper with the store
   write failing when the fault flag says so OR when the store's by-IP index already records the prefix for
-  somebody else (`foreign`: prefixes recorded by other pools sharing the store, ErrConflict). -/
+  somebody else (ErrConflict).  TWO PoolAllocators, "p" (`s`) and "q" (`q`), of the same geometry share the
+  store, so every unit of one collides with the same unit of the other in the by-IP index (its key is the
+  address alone); `foreign` are prefixes recorded directly in the store for a third pool.
+
+  The store owns its records (since fix 1525014 SaveAllocation keeps a copy and every getter returns
+  copies): the objects a caller holds — the *net.IPNet Allocate returned, a record it passed to
+  SaveAllocation, what GetByPool / GetBySubscriber / GetByIP returned — are not store state, so writing
+  through them (`scribble`) is no operation on the model.  `Aliased` below is the store as it was before
+  that fix, for the witness of the defect. -/
 namespace Pool
 
 structure State where
   s       : Session.State
+  q       : Session.State
   foreign : List Nat
   deriving Repr
 
-def init (c : Bitmap.Cfg) : State := { s := Session.init c, foreign := [] }
+def init (c : Bitmap.Cfg) : State := { s := Session.init c, q := Session.init c, foreign := [] }
 
-/-- SaveAllocation's conflict check for the prefix Allocate is about to hand out -/
+/-- the by-IP index names `a` for somebody who is not a subscriber of the pool asking: a record of the
+    other pool or of the third one -/
+def taken (foreign : List Nat) (other : Session.State) (a : Nat) : Bool :=
+  foreign.contains a || other.store.any (fun p => p.2.addr == a)
+
+/-- SaveAllocation's conflict check for the prefix Allocate (pool p) is about to hand out -/
 def conflictFor (st : State) (k : Nat) : Bool :=
   match Bitmap.alloc st.s.a k with
-  | (_, .okAddr a) => st.foreign.contains a
+  | (_, .okAddr a) => taken st.foreign st.q a
   | _ => false
 
-/-- AllocateWithOptions -/
+/-- the same for pool q -/
+def qconflictFor (st : State) (k : Nat) : Bool :=
+  match Bitmap.alloc st.q.a k with
+  | (_, .okAddr a) => taken st.foreign st.s a
+  | _ => false
+
+/-- AllocateWithOptions (pool p) -/
 def alloc (st : State) (k : Nat) (saveFails : Bool) : State × Obs :=
   let r := Session.alloc st.s k (saveFails || conflictFor st k)
   ({ st with s := r.1 }, r.2)
 
-/-- Release -/
+/-- Release (pool p) -/
 def release (st : State) (k : Nat) (removeFails : Bool) : State × Obs :=
   let r := Session.release st.s k removeFails
   ({ st with s := r.1 }, r.2)
 
-/-- another pool records `addr` in the shared store: refused when this pool's record already names it -/
+/-- AllocateWithOptions (pool q) -/
+def qalloc (st : State) (k : Nat) (saveFails : Bool) : State × Obs :=
+  let r := Session.alloc st.q k (saveFails || qconflictFor st k)
+  ({ st with q := r.1 }, r.2)
+
+/-- Release (pool q) -/
+def qrelease (st : State) (k : Nat) (removeFails : Bool) : State × Obs :=
+  let r := Session.release st.q k removeFails
+  ({ st with q := r.1 }, r.2)
+
+/-- a third pool records `addr` in the shared store: refused when a record of p or q already names it -/
 def foreign (st : State) (addr : Nat) : State × Obs :=
-  if st.s.store.any (fun p => p.2.addr == addr) then (st, .error)
+  if st.s.store.any (fun p => p.2.addr == addr) || st.q.store.any (fun p => p.2.addr == addr) then (st, .error)
   else ({ st with foreign := if st.foreign.contains addr then st.foreign else addr :: st.foreign }, .ok)
 
 def unforeign (st : State) (addr : Nat) : State := { st with foreign := st.foreign.filter (· != addr) }
@@ -342,6 +424,12 @@ inductive Op where
   | foreign (addr : Nat)
   | unforeign (addr : Nat)
   | rtstore            -- MemoryAllocationStore Marshal/Unmarshal: the three indexes are rebuilt from the records
+  | qalloc (k : Nat) (f : Bool)
+  | qrelease (k : Nat) (f : Bool)
+  | qlookup (k : Nat)
+  /-- the caller writes through every pointer it was given or handed in (results of Allocate / Lookup,
+      records passed to SaveAllocation, results of the store's getters): none of them is store state -/
+  | scribble
   deriving Repr, DecidableEq
 
 def step (st : State) : Op → State × Obs
@@ -352,9 +440,71 @@ def step (st : State) : Op → State × Obs
   | .foreign a => foreign st a
   | .unforeign a => (unforeign st a, .ok)
   | .rtstore => (st, .ok)
+  | .qalloc k f => qalloc st k f
+  | .qrelease k f => qrelease st k f
+  | .qlookup k => (st, Session.get st.q k)
+  | .scribble => (st, .ok)
 
 def run (st : State) (ops : List Op) : State := ops.foldl (fun s op => (step s op).1) st
 
+/-- every answer of a history, in order -/
+def answers : State → List Op → List Obs
+  | _, [] => []
+  | st, op :: ops => (step st op).2 :: answers (step st op).1 ops
+
+/-- who the by-IP index names for address `a`: (pool, subscriber) with pool 0 = p, 1 = q, 2 = the third pool -/
+def byIP (st : State) (a : Nat) : Option (Nat × Nat) :=
+  match st.s.store.find? (fun p => p.2.addr == a) with
+  | some p => some (0, p.1)
+  | none =>
+    match st.q.store.find? (fun p => p.2.addr == a) with
+    | some p => some (1, p.1)
+    | none => if st.foreign.contains a then some (2, a) else none
+
 end Pool
+
+/-! ### the store BEFORE fix 1525014: records shared with the callers
+
+  One pool, one by-IP index kept next to the records (as the code keeps it).  `Allocate` returned the stored
+  record's own *net.IPNet: a caller writing through it (`poke k a'`) changed the stored prefix and no index
+  followed; RemoveAllocation computes the index key from the stored record and therefore missed the entry. -/
+namespace Aliased
+
+structure State where
+  a     : Bitmap.State
+  recs  : AMap Nat Nat          -- subscriber ↦ address of its stored record
+  byIP  : AMap Nat Nat          -- address ↦ subscriber (the by-IP index)
+  deriving Repr
+
+def init (c : Bitmap.Cfg) : State := { a := Bitmap.init c, recs := [], byIP := [] }
+
+def alloc (st : State) (k : Nat) : State × Obs :=
+  let existed := (AMap.lookup st.a.allocated k).isSome
+  match Bitmap.alloc st.a k with
+  | (a', .okAddr addr) =>
+    match AMap.lookup st.byIP addr with
+    | some k' =>
+      if k' == k then ({ st with a := a' }, .okAddr addr st.a.cfg.plen)
+      else ({ st with a := if existed then a' else (Bitmap.release a' k).1 }, .error)     -- ErrConflict
+    | none => ({ a := a', recs := AMap.insert st.recs k addr, byIP := AMap.insert st.byIP addr k }, .okAddr addr st.a.cfg.plen)
+  | (_, .exhausted) => (st, .exhausted)
+  | (_, _) => (st, .error)
+
+/-- Release: RemoveAllocation derives the by-IP key from the STORED record -/
+def release (st : State) (k : Nat) : State × Obs :=
+  if (AMap.lookup st.a.allocated k).isNone then (st, .notfound)
+  else
+    let byIP' := match AMap.lookup st.recs k with
+      | some addr => AMap.erase st.byIP addr
+      | none => st.byIP
+    ({ a := (Bitmap.release st.a k).1, recs := AMap.erase st.recs k, byIP := byIP' }, .ok)
+
+/-- the caller writes address `a'` through the *net.IPNet Allocate returned for k -/
+def poke (st : State) (k a' : Nat) : State :=
+  match AMap.lookup st.recs k with
+  | some _ => { st with recs := AMap.insert st.recs k a' }
+  | none => st
+
+end Aliased
 
 end Bng.Dist
